@@ -167,6 +167,9 @@ def cases(seed, tier, shard, nshards):
                     mixed = any(d.get('order', 1) == 0 for _, _, d in c['base'].edges(node, data=True))
                     vs.append(dict(fault='c', pos=position_class(i, len(pre), flat[i][1], False) + ('_mixed_orders' if mixed else ''), level='base', api='resolve',
                                    string=G.to_string(a2) + '.' + frag()))
+                    # the same fault when the base graph is handed over as a networkx graph
+                    vs.append(dict(fault='c', pos='via_from_graph' + ('_mixed_orders' if mixed else ''), level='base', api='resolve_from_graph',
+                                   string=G.to_string(a2) + '.' + frag()))
             for fi, (name, text) in enumerate(items):
                 late = '_late_fragment' if fi == len(items) - 1 and len(items) > 2 else ''
                 for f, p, s in atom_annotation_variants(rng, c['tokens'][name], g):
@@ -197,6 +200,9 @@ def execute(api, s):
     from cgsmiles import MoleculeResolver
     if api == 'read_cgsmiles':
         return cgsmiles.read_cgsmiles(s)
+    if api == 'resolve_from_graph':
+        cut = s.index('}.{')
+        return MoleculeResolver.from_graph(s[cut + 2:], cgsmiles.read_cgsmiles(s[:cut + 1])).resolve_all()
     if api == 'resolve':
         return MoleculeResolver.from_string(s).resolve_all()
     return MoleculeResolver.from_string(s, last_all_atom=False).resolve_all()
